@@ -73,6 +73,7 @@ def generate(rng):
         scn['use_poll'] = rng.random() < 0.3
         scn['output'] = rng.choice(['', '', 'hello\r\n', 'x' * 3000])
         scn['encoding'] = rng.choice([None, None, 'utf-8'])
+        scn['hup_write'] = rng.choice(['ok', 'ok', 'eio'])
     elif tr == 'sock':
         scn['reset'] = rng.random() < 0.4
         scn['peer_closes'] = rng.random() < 0.4
